@@ -65,6 +65,24 @@ fn main() {
             let outp = arg(&args, "--out").expect("--out");
             let report = arg(&args, "--report").expect("--report");
             let mut ex = exec::Exec::new();
+            {
+                // C14 matrix: execution configuration of the implementation side
+                let mut l1 = exec_l1::L1State::default();
+                if let Some(c) = arg(&args, "--cache") {
+                    l1.cache_mode = c;
+                }
+                if let Some(p) = arg(&args, "--par") {
+                    l1.parallelism = exec_l3::parse_par(&p).expect("--par off|staticN|availN");
+                }
+                if let Some(r) = arg(&args, "--restart") {
+                    l1.restart_permille = r.parse().expect("--restart <permille>");
+                }
+                l1.readonly = args.iter().any(|a| a == "--readonly");
+                if let Some(s) = arg(&args, "--seed") {
+                    l1.rng = rng::Rng::new(s.parse().unwrap_or(7));
+                }
+                ex.l1 = Some(l1);
+            }
             let f = std::io::BufReader::new(std::fs::File::open(&inp).unwrap());
             let mut o = std::io::BufWriter::new(std::fs::File::create(&outp).unwrap());
             for line in f.lines() {
